@@ -217,6 +217,11 @@ func c04Run(ci any) Result {
 				h := func(ctx echo.Context) error {
 					trace = append(trace, "H"+strconv.Itoa(hid))
 					if fails {
+						if hid%2 == 0 {
+							// the handler has already written (part of) its answer when it fails: the error must
+							// still be seen by every layer above
+							ctx.String(http.StatusOK, "partial")
+						}
 						return echo.NewHTTPError(http.StatusTeapot, "handler failed")
 					}
 					return ctx.NoContent(http.StatusOK)
@@ -404,7 +409,7 @@ func c04Run(ci any) Result {
 	// the handler that ran must be registered for the method as the Pre chain left it
 	if handlerHid >= 0 {
 		for _, o := range c.Ops {
-			if o.Kind == "add" && o.Hid == handlerHid && o.Method != effMethod && o.Via != "any" {
+			if o.Kind == "add" && o.Hid == handlerHid && o.Method != effMethod && o.Via != "any" && o.Method != routeNotFound {
 				fail(fmt.Sprintf("handler %d is registered for %s but ran for a request whose method after the Pre chain is %s", handlerHid, o.Method, effMethod))
 			}
 		}
@@ -764,6 +769,9 @@ func c04Gen(r *rand.Rand, tier string) []any {
 					path = "/"
 				}
 				m := []string{"GET", "GET", "POST", "PUT"}[r.Intn(4)]
+				if r.Intn(12) == 0 {
+					m = routeNotFound // the application's own not-found route (Echo.RouteNotFound / Group.RouteNotFound)
+				}
 				ao := c04Op{Kind: "add", G: g, Method: m, Path: path, Hid: nextHid, Fails: r.Intn(4) == 0, Mws: newIDs(2)}
 				switch r.Intn(8) {
 				case 0:
